@@ -53,6 +53,10 @@ pub struct Fix {
     pub garbage_response: bool,
     /// which property's oracle clauses are evaluated: 5 or 10
     pub oracle: u8,
+    /// offer NetcodeServer::disconnect(id) for these ids even outside the C10 alphabet
+    pub extra_disconnects: Vec<u64>,
+    /// identities (token index, address index) connected through honest handshakes before the search starts
+    pub preconnected: Vec<(usize, usize)>,
 }
 
 #[derive(Clone, Debug, PartialEq, Eq, Hash)]
@@ -163,7 +167,8 @@ pub fn corruptions(req: &[u8]) -> Vec<(&'static str, Vec<u8>)> {
 impl HsWorld {
     pub fn new(fx: Fix) -> Self {
         let server = new_server(fx.initial_max, vec![server_addr(0)], Duration::ZERO);
-        HsWorld {
+        let pre = fx.preconnected.clone();
+        let mut w = HsWorld {
             fx: Arc::new(fx),
             server,
             now_ms: 0,
@@ -174,7 +179,15 @@ impl HsWorld {
             limit_lowered: false,
             next_seq: 100,
             flags: 0,
+        };
+        // start from a non-initial state: these identities complete an honest handshake first
+        for (t, ai) in pre {
+            let _ = w.step(&Act::Request(t, ai));
+            if let Some(c) = w.chals.iter().position(|c| c.for_token == t) {
+                let _ = w.step(&Act::Response(c, t, ai));
+            }
         }
+        w
     }
 
     fn tag_of_user_data(&self, ud: &[u8; 256]) -> Option<usize> {
@@ -355,13 +368,18 @@ impl World for HsWorld {
                 v.push(Act::ClockTo(t));
             }
         }
+        for id in &fx.extra_disconnects {
+            v.push(Act::ServerDisconnect(*id));
+        }
         if fx.c10_actions {
             for i in 0..fx.identities.len() {
                 v.push(Act::ClientDisconnect(i));
                 v.push(Act::Payload(i));
             }
-            for id in [1u64, 2, 3] {
-                v.push(Act::ServerDisconnect(id));
+            for id in [1u64, 2, 3, 40] {
+                if id != 40 || fx.toks.iter().any(|t| t.spec.client_id == 40) {
+                    v.push(Act::ServerDisconnect(id));
+                }
             }
             v.push(Act::TimeoutTick);
             for &m in &fx.max_options {
@@ -499,7 +517,7 @@ impl World for HsWorld {
 }
 
 pub fn addrs() -> Vec<SocketAddr> {
-    vec![client_addr(1), client_addr(2), client_addr(3)]
+    vec![client_addr(1), client_addr(2), client_addr(3), client_addr(4)]
 }
 
 /// the attacker-driven configuration of C05
@@ -535,7 +553,24 @@ pub fn c05_fix() -> Fix {
         initial_max: 4,
         garbage_response: true,
         oracle: 5,
+        extra_disconnects: vec![],
+        preconnected: vec![],
     }
+}
+
+/// C05 on a one-slot server that is full at the start (t2 connected from address 1): tokens presented while
+/// the server is full, then again from another address once the slot is free
+pub fn c05_full_fix() -> Fix {
+    let mut f = c05_fix();
+    f.initial_max = 1;
+    f.req_pairs = vec![(0, 0), (0, 1), (0, 2), (7, 0), (7, 2)];
+    f.resp_pairs = vec![(0, 0), (0, 1), (0, 2), (7, 0), (7, 2)];
+    f.corrupt = vec![];
+    f.garbage_response = false;
+    f.clock_targets_ms = vec![];
+    f.extra_disconnects = vec![2];
+    f.preconnected = vec![(1, 1)];
+    f
 }
 
 /// the table-centred configuration of C10
@@ -560,6 +595,40 @@ pub fn c10_fix(initial_max: usize) -> Fix {
         initial_max,
         garbage_response: false,
         oracle: 10,
+        extra_disconnects: vec![],
+        preconnected: vec![],
+    }
+}
+
+/// C10 from a non-initial state: three distinct clients already connected on a 3-slot server
+pub fn c10_prebuilt_fix() -> Fix {
+    let public = vec![server_addr(0)];
+    let mut toks = standard_tokens(&public);
+    let mk = |name: &'static str, spec: TokenSpec| {
+        let token = make_token(&spec);
+        let request = request_datagram(&token);
+        Tok { name, spec, token, valid: true, request }
+    };
+    toks.push(mk("t4(id4)", TokenSpec::new(40, 40, public.to_vec())));
+    let t4 = toks.len() - 1;
+    // identities: (t1 @a0), (t2 @a1), (t4 @a3) connected at the start; (t3 @a2) free to join
+    let identities = vec![(0usize, 0usize), (1, 1), (t4, 3), (7, 2)];
+    Fix {
+        toks,
+        addrs: addrs(),
+        req_pairs: identities.clone(),
+        corrupt: vec![],
+        resp_pairs: identities.clone(),
+        max_challenges: 5,
+        clock_targets_ms: vec![],
+        identities,
+        c10_actions: true,
+        max_options: vec![1, 2, 3, 4],
+        initial_max: 3,
+        garbage_response: false,
+        oracle: 10,
+        extra_disconnects: vec![],
+        preconnected: vec![(0, 0), (1, 1), (t4, 3)],
     }
 }
 
